@@ -242,6 +242,10 @@ class OffsetDomain(Domain):
             start = 0
             if isinstance(node, ast.Call) and len(node.args) >= 2 and isinstance(node.args[0], ast.Constant) and isinstance(node.args[0].value, int):
                 start = node.args[0].value
+            elif isinstance(node, ast.Call) and len(node.args) >= 2:
+                # range(<expression>, ...): the numbers start where the expression says, not at zero -- they carry the
+                # index nature of the start value (a running serial number, a count), or none
+                return it.new(st, "list", node, elem=V(self._deep(it, args[0], st) or O))
             return it.new(st, "list", node, elem=V(frozenset([("L", start)])))
         if nm == "builtins.enumerate":
             start = 0
